@@ -15,8 +15,8 @@ import (
 func init() {
 	suites["smap"] = &suite{gen: genSmap, run: runSmap}
 	oracles["C09"] = &oracle{
-		rule: "random histories over {AddMapping, AddNamedMapping, AdvanceColumn, AdvanceString, AdvanceLine} with negative, decreasing and large arguments, CR/LF mixes; plus single-segment VLQ sweeps; non-trivial = history with >=1 mapping; distinct by (history, number of lines/names)",
-		gen:  genSmap,
+		rule:  "random histories over {AddMapping, AddNamedMapping, AdvanceColumn, AdvanceString, AdvanceLine} with negative, decreasing and large arguments, CR/LF mixes; plus single-segment VLQ sweeps; non-trivial = history with >=1 mapping; distinct by (history, number of lines/names)",
+		gen:   genSmap,
 		check: checkC09,
 	}
 }
